@@ -261,6 +261,10 @@ class Interp:
                 self.block(s.orelse)
         elif isinstance(s, ast.For):
             it = self.ev(s.iter)
+            if isinstance(it, Rec) and isinstance(it.f.get('cls'), str):
+                found, res = self._dunder(it, '__iter__')
+                if found:
+                    it = res
             if isinstance(it, (Opaque, Ref, Rec)) or not hasattr(it, '__iter__'):
                 raise Unmodelled(f'for-loop over a symbolic iterable at line {s.lineno}')
             items = list(it)
@@ -637,14 +641,14 @@ class Interp:
             else:
                 kwargs[k.arg] = self.ev(k.value)
         if isinstance(fn, ast.Attribute):
+            if isinstance(fn.value, ast.Call) and isinstance(fn.value.func, ast.Name) and fn.value.func.id == 'super' \
+                    and not fn.value.args and 'super' not in self.env:
+                return self._super_call(fn.attr, args, kwargs)
             recv = self._safe_ev(fn.value)
             if isinstance(recv, PyModel) and hasattr(recv, fn.attr):
                 return getattr(recv, fn.attr)(*args, **kwargs)
             if isinstance(recv, Opaque) and recv.label not in ('aug',) and not isinstance(fn.value, ast.Name):
                 return Opaque(f'{recv.label}.{fn.attr}()')
-            if isinstance(fn.value, ast.Call) and isinstance(fn.value.func, ast.Name) and fn.value.func.id == 'super' \
-                    and not fn.value.args and 'super' not in self.env:
-                return self._super_call(fn.attr, args, kwargs)
             if isinstance(recv, Rec) and 'cls' in recv.f and isinstance(recv.f['cls'], str) and self.depth < self.max_depth \
                     and not (isinstance(fn.value, ast.Name) and fn.value.id in self.effects):
                 if fn.attr in recv.f and isinstance(recv.f[fn.attr], (LambdaVal, BoundMethod, PyModel, Ref)):
@@ -929,6 +933,10 @@ class Interp:
             return
         g = gens[i]
         it = self.ev(g.iter)
+        if isinstance(it, Rec) and isinstance(it.f.get('cls'), str):
+            found, res = self._dunder(it, '__iter__')
+            if found:
+                it = res
         if isinstance(it, (Opaque, Ref, Rec)) or not hasattr(it, '__iter__'):
             raise Unmodelled('comprehension over a symbolic iterable')
         items = list(it)
